@@ -37,6 +37,7 @@ type PropSpec struct {
 	Funcs   []string   `json:"funcs"` // "pkgname:relname" globs
 	Kinds   []string   `json:"kinds"` // extra discipline kinds claimed (guarded, lock, callback-free, immutable, blocking)
 	Exclude []Selector `json:"exclude"`
+	TaggedOnly bool    `json:"tagged_only"` // untagged clauses of the selected functions are not claimed (discipline kinds and tagged clauses only)
 	Assumptions []string `json:"assumptions"`
 	Undecided   []string `json:"undecided"`
 }
@@ -101,8 +102,12 @@ func (e *Engine) load(u Unit, repoRoot string) error {
 		}
 		e.contracts[p.Pkg.Path()] = cs
 	}
-	// function index
+	// function index (functions of the working tree only: a released copy of the root module that a nested module
+	// depends on is never a verification target)
 	for _, p := range e.loadedPkgs {
+		if !inTree[p.Pkg.Path()] {
+			continue
+		}
 		for _, m := range p.Members {
 			switch x := m.(type) {
 			case *ssa.Function:
@@ -468,6 +473,8 @@ func (p *PropSpec) belongs(id string, pkgName string, o *Obligation) bool {
 		if !found {
 			return false
 		}
+	} else if p.TaggedOnly && !disciplineKinds[o.Kind] {
+		return false
 	} else if disciplineKinds[o.Kind] {
 		ok := false
 		for _, k := range p.Kinds {
